@@ -505,7 +505,17 @@ def _producer(prog: Program, res: Result) -> None:
                     a = parent(a)
                 src = " ".join(norm(l.iter) for l in walk_own(fn.node) if isinstance(l, ast.For) and n in list(ast.walk(l)))
                 src += " " + " ".join(norm(g.iter) for g in ast.walk(arg) if isinstance(g, ast.comprehension))
-                if ("ImportFrom" in src or ".names" in src) and not any(re.search(r"\\b(not )?in\\b", c) for c in conds):
+                # an early `continue` in front of the recording statement is a condition as well (`if node.module is None: continue`
+                # drops `from . import name as alias`)
+                skipped = False
+                for l in walk_own(fn.node):
+                    if isinstance(l, ast.For) and n in list(ast.walk(l)):
+                        for st_ in l.body:
+                            if n in list(ast.walk(st_)):
+                                break
+                            if isinstance(st_, ast.If) and any(isinstance(x, (ast.Continue, ast.Break, ast.Return)) for x in ast.walk(st_)):
+                                skipped = True
+                if ("ImportFrom" in src or ".names" in src) and not any(re.search(r"\\b(not )?in\\b", c) for c in conds) and not skipped:
                     orig = True
     res.decide(orig, "R8.3", fn.loc(), fn.fq, "names taken by from-import",
                "the original name (alias.name) of every from-import alias of a preserved file is recorded" if orig else
